@@ -47,12 +47,13 @@ theorem C17_one_buffer (C : Crypto) (all salt pk : Bytes) :
 theorem C17_reconnect (C : Crypto) (salt : Bytes) :
     integrityReconnect C salt = C.sha1 (salt ++ List.replicate 20 0) := rfl
 
-/-- **a changed input that leaves the result unchanged exhibits a collision**: two calls whose file
-    contents (concatenated), salt or 32-byte key differ but whose results agree yield either an explicit
-    HMAC collision (different (salt, files) with equal HMAC) or an explicit SHA-1 collision pair
-    (`pk ++ mac ≠ pk' ++ mac'` with equal SHA-1). Covers every single-byte/bit change of any file, of the
-    salt and of the key. -/
-theorem C17_changed_input_collision (C : Crypto) (files files' salt salt' pk pk' : Bytes)
+/-- general form, salts of ANY length (kept because it is true, and the 16-byte theorems below are
+    instances of it). NOTE that for salts of unrestricted length its first disjunct is weak: real HMAC
+    zero-pads a short key to the block size, so `hmac salt m = hmac (salt ++ [0]) m` and
+    "different (salt, files) with equal HMAC" is then met trivially. The property quantifies over
+    16-byte salts: see `C17_changed_input_collision`, where both salts have the same length 16 and the
+    padding identity cannot be used. -/
+theorem C17_changed_input_collision_anysalt (C : Crypto) (files files' salt salt' pk pk' : Bytes)
     (hpk : pk.length = 32) (hpk' : pk'.length = 32)
     (hdiff : files ≠ files' ∨ salt ≠ salt' ∨ pk ≠ pk')
     (heq : integrityGeneric C files salt pk = integrityGeneric C files' salt' pk') :
@@ -77,9 +78,28 @@ theorem C17_changed_input_collision (C : Crypto) (files files' salt salt' pk pk'
     intro h
     exact hm (List.append_inj h (hpk.trans hpk'.symm)).2
 
-/-- the same for the five-argument entry points (Windows on one side, Mac on the other, or the same):
-    what matters is the concatenation -/
-theorem C17_changed_input_collision_files (C : Crypto) (f1 f2 f3 f4 f5 g1 g2 g3 g4 g5 salt salt' pk pk' : Bytes)
+/-- **a changed input that leaves the result unchanged exhibits a collision** (16-byte salts, 32-byte
+    keys — the property's quantifier): two calls whose file contents (concatenated), 16-byte salt or
+    32-byte key differ but whose results agree yield either an explicit HMAC collision — two
+    (16-byte key, message) pairs that differ, both keys of the same length 16, with equal HMAC — or an
+    explicit SHA-1 collision pair (`pk ++ mac ≠ pk' ++ mac'` with equal SHA-1). Covers every
+    single-byte/bit change of any file, of the salt and of the key. -/
+theorem C17_changed_input_collision (C : Crypto) (files files' salt salt' pk pk' : Bytes)
+    (hsalt : salt.length = 16) (hsalt' : salt'.length = 16)
+    (hpk : pk.length = 32) (hpk' : pk'.length = 32)
+    (hdiff : files ≠ files' ∨ salt ≠ salt' ∨ pk ≠ pk')
+    (heq : integrityGeneric C files salt pk = integrityGeneric C files' salt' pk') :
+    (salt.length = 16 ∧ salt'.length = 16 ∧
+      (salt, files) ≠ (salt', files') ∧ C.hmac salt files = C.hmac salt' files') ∨
+    (∃ m₁ m₂, m₁ = pk ++ C.hmac salt files ∧ m₂ = pk' ++ C.hmac salt' files' ∧
+      m₁ ≠ m₂ ∧ C.sha1 m₁ = C.sha1 m₂) :=
+  (C17_changed_input_collision_anysalt C files files' salt salt' pk pk' hpk hpk' hdiff heq).imp
+    (fun h => ⟨hsalt, hsalt', h⟩) id
+
+/-- five-argument entry points, salts of any length (see the note at
+    `C17_changed_input_collision_anysalt`) -/
+theorem C17_changed_input_collision_files_anysalt (C : Crypto)
+    (f1 f2 f3 f4 f5 g1 g2 g3 g4 g5 salt salt' pk pk' : Bytes)
     (hpk : pk.length = 32) (hpk' : pk'.length = 32)
     (hdiff : f1 ++ f2 ++ f3 ++ f4 ++ f5 ≠ g1 ++ g2 ++ g3 ++ g4 ++ g5 ∨ salt ≠ salt' ∨ pk ≠ pk')
     (heq : integrityWindows C f1 f2 f3 f4 f5 salt pk = integrityWindows C g1 g2 g3 g4 g5 salt' pk' ∨
@@ -89,13 +109,41 @@ theorem C17_changed_input_collision_files (C : Crypto) (f1 f2 f3 f4 f5 g1 g2 g3 
       C.hmac salt (f1 ++ f2 ++ f3 ++ f4 ++ f5) = C.hmac salt' (g1 ++ g2 ++ g3 ++ g4 ++ g5)) ∨
     (∃ m₁ m₂, m₁ = pk ++ C.hmac salt (f1 ++ f2 ++ f3 ++ f4 ++ f5) ∧
       m₂ = pk' ++ C.hmac salt' (g1 ++ g2 ++ g3 ++ g4 ++ g5) ∧ m₁ ≠ m₂ ∧ C.sha1 m₁ = C.sha1 m₂) := by
-  apply C17_changed_input_collision C _ _ salt salt' pk pk' hpk hpk' hdiff
+  apply C17_changed_input_collision_anysalt C _ _ salt salt' pk pk' hpk hpk' hdiff
   obtain ⟨w1, m1, _⟩ := C17_all_equal C f1 f2 f3 f4 f5 salt pk
   obtain ⟨w2, m2, _⟩ := C17_all_equal C g1 g2 g3 g4 g5 salt' pk'
   rcases heq with h | h | h
   · rw [← w1, ← w2]; exact h
   · rw [← m1, ← m2]; exact h
   · rw [← w1, ← m2]; exact h
+
+/-- the same for the five-argument entry points (Windows on one side, Mac on the other, or the same),
+    16-byte salts and 32-byte keys: what matters is the concatenation -/
+theorem C17_changed_input_collision_files (C : Crypto) (f1 f2 f3 f4 f5 g1 g2 g3 g4 g5 salt salt' pk pk' : Bytes)
+    (hsalt : salt.length = 16) (hsalt' : salt'.length = 16)
+    (hpk : pk.length = 32) (hpk' : pk'.length = 32)
+    (hdiff : f1 ++ f2 ++ f3 ++ f4 ++ f5 ≠ g1 ++ g2 ++ g3 ++ g4 ++ g5 ∨ salt ≠ salt' ∨ pk ≠ pk')
+    (heq : integrityWindows C f1 f2 f3 f4 f5 salt pk = integrityWindows C g1 g2 g3 g4 g5 salt' pk' ∨
+           integrityMac C f1 f2 f3 f4 f5 salt pk = integrityMac C g1 g2 g3 g4 g5 salt' pk' ∨
+           integrityWindows C f1 f2 f3 f4 f5 salt pk = integrityMac C g1 g2 g3 g4 g5 salt' pk') :
+    (salt.length = 16 ∧ salt'.length = 16 ∧
+      (salt, f1 ++ f2 ++ f3 ++ f4 ++ f5) ≠ (salt', g1 ++ g2 ++ g3 ++ g4 ++ g5) ∧
+      C.hmac salt (f1 ++ f2 ++ f3 ++ f4 ++ f5) = C.hmac salt' (g1 ++ g2 ++ g3 ++ g4 ++ g5)) ∨
+    (∃ m₁ m₂, m₁ = pk ++ C.hmac salt (f1 ++ f2 ++ f3 ++ f4 ++ f5) ∧
+      m₂ = pk' ++ C.hmac salt' (g1 ++ g2 ++ g3 ++ g4 ++ g5) ∧ m₁ ≠ m₂ ∧ C.sha1 m₁ = C.sha1 m₂) :=
+  (C17_changed_input_collision_files_anysalt C f1 f2 f3 f4 f5 g1 g2 g3 g4 g5 salt salt' pk pk'
+    hpk hpk' hdiff heq).imp (fun h => ⟨hsalt, hsalt', h⟩) id
+
+/-- **same salt**: when only the files change (same 16-byte salt — the single-byte-of-a-file case) the
+    HMAC disjunct is a collision of `HMAC(salt, ·)` on two different MESSAGES under one key -/
+theorem C17_changed_files_collision (C : Crypto) (files files' salt pk : Bytes)
+    (hsalt : salt.length = 16) (hpk : pk.length = 32) (hdiff : files ≠ files')
+    (heq : integrityGeneric C files salt pk = integrityGeneric C files' salt pk) :
+    (salt.length = 16 ∧ files ≠ files' ∧ C.hmac salt files = C.hmac salt files') ∨
+    (∃ m₁ m₂, m₁ = pk ++ C.hmac salt files ∧ m₂ = pk ++ C.hmac salt files' ∧
+      m₁ ≠ m₂ ∧ C.sha1 m₁ = C.sha1 m₂) :=
+  (C17_changed_input_collision C files files' salt salt pk pk hsalt hsalt hpk hpk (Or.inl hdiff) heq).imp
+    (fun h => ⟨hsalt, hdiff, h.2.2.2⟩) id
 
 /-- a single flipped bit anywhere in a file, the salt or the key is such a change -/
 theorem C17_flipped_bit_is_change (files salt pk : Bytes) (i : Nat) :
@@ -104,7 +152,10 @@ theorem C17_flipped_bit_is_change (files salt pk : Bytes) (i : Nat) :
     (i < 8 * pk.length → flipBit pk i ≠ pk ∧ (flipBit pk i).length = pk.length) :=
   ⟨flipBit_ne _ _, flipBit_ne _ _, fun h => ⟨flipBit_ne _ _ h, flipBit_length _ _⟩⟩
 
-/-- reconnect variant: equal results for different 16-byte salts ⇒ explicit SHA-1 collision pair -/
+/-- reconnect variant: equal results for different salts (of any length, in particular 16 bytes) ⇒
+    explicit SHA-1 collision pair. No length hypothesis is needed here and none would strengthen the
+    statement: the salt is a PREFIX of a SHA-1 input with a fixed 20-byte suffix, so different salts
+    always give different inputs (there is no key padding as in HMAC). -/
 theorem C17_reconnect_changed_salt_collision (C : Crypto) (salt salt' : Bytes) (hne : salt ≠ salt')
     (heq : integrityReconnect C salt = integrityReconnect C salt') :
     ∃ m₁ m₂, m₁ = salt ++ List.replicate 20 0 ∧ m₂ = salt' ++ List.replicate 20 0 ∧
@@ -115,11 +166,26 @@ theorem C17_reconnect_changed_salt_collision (C : Crypto) (salt salt' : Bytes) (
 section
 private def Cconst : Crypto := ⟨fun _ => List.replicate 20 0, fun _ _ => List.replicate 20 0, fun _ => List.replicate 16 0⟩
 /-- the hypotheses of the collision theorem are jointly satisfiable (with the constant hash) -/
-example : (List.replicate 32 (1 : UInt8)).length = 32 ∧ ([1] : Bytes) ≠ [2] ∧
-    integrityGeneric Cconst [1] [5] (List.replicate 32 1) = integrityGeneric Cconst [2] [5] (List.replicate 32 1) := by
+example : (List.replicate 32 (1 : UInt8)).length = 32 ∧ (List.replicate 16 (5 : UInt8)).length = 16 ∧
+    ([1] : Bytes) ≠ [2] ∧
+    integrityGeneric Cconst [1] (List.replicate 16 5) (List.replicate 32 1)
+      = integrityGeneric Cconst [2] (List.replicate 16 5) (List.replicate 32 1) := by
+  decide
+/-- why the salt length matters: with a zero-padding keyed hash (as real HMAC does for short keys) the
+    general form's first disjunct is met by `salt' = salt ++ [0]` and identical files and key -/
+example :
+    let Cpad : Crypto := ⟨fun m => m, fun k m => (k ++ List.replicate (64 - k.length) 0) ++ m, fun _ => []⟩
+    (([5] : Bytes), ([1] : Bytes)) ≠ ([5, 0], [1]) ∧ Cpad.hmac [5] [1] = Cpad.hmac [5, 0] [1] := by
   decide
 /-- a split with empty files -/
 example : ([1, 2] : Bytes) ++ [] ++ [3] ++ [] ++ [4, 5] = [] ++ [1] ++ [2, 3, 4] ++ [5] ++ [] := by decide
 end
+
+#print axioms C17_changed_input_collision
+#print axioms C17_changed_input_collision_files
+#print axioms C17_changed_files_collision
+#print axioms C17_changed_input_collision_anysalt
+#print axioms C17_changed_input_collision_files_anysalt
+#print axioms C17_reconnect_changed_salt_collision
 
 end WowSrp
